@@ -248,9 +248,10 @@ impl World {
         }
         if let Some(h) = hint {
             let base = self.groups[g].base;
-            if base + chain_len(h) == epoch && !self.chain_auth.contains_key(h) {
+            let key = format!("{g}/{h}");
+            if base + chain_len(h) == epoch && !self.chain_auth.contains_key(&key) {
                 self.chains.insert(auth.clone(), h.to_string());
-                self.chain_auth.insert(h.to_string(), auth);
+                self.chain_auth.insert(key, auth);
                 return h.to_string();
             }
             return format!("?conflict:{h}");
@@ -629,7 +630,7 @@ impl World {
             let base = self.groups[&g].base;
             let cands: Vec<String> = self.events.values()
                 .filter(|k| k.kind == "commit" && k.author == c && k.g == g && base + chain_len(&k.parent) + 1 == epoch_now
-                    && !self.chain_auth.contains_key(&chain_push(&k.parent, &k.name)))
+                    && !self.chain_auth.contains_key(&format!("{g}/{}", chain_push(&k.parent, &k.name))))
                 .map(|k| chain_push(&k.parent, &k.name)).collect();
             if cands.len() == 1 { Some(cands[0].clone()) } else { None }
         } else {
